@@ -245,6 +245,136 @@ def numeral_function(mod, name: str, state, extras):
     return "".join(out)
 
 
+# ---------------------------------------------------------------------------
+# pdfdocument.PageLabels: the style dispatch of _format_page_label and the constants / arithmetic of labels
+
+def page_label_chain(doc_mod):
+    fn = P.find_function(doc_mod, "PageLabels._format_page_label")
+    if [a.arg for a in fn.args.args] != ["value", "style"]:
+        raise P.Untranslatable("_format_page_label: parameters")
+    body = [s for s in fn.body if not (isinstance(s, ast.Expr) and isinstance(s.value, ast.Constant))]
+    if not (len(body) == 2 and isinstance(body[0], ast.If) and isinstance(body[1], ast.Return)
+            and isinstance(body[1].value, ast.Name) and body[1].value.id == "label"):
+        raise P.Untranslatable("_format_page_label: not `if ...: label = ...` followed by `return label`")
+
+    def label_expr(stmts, allow_log):
+        st = list(stmts)
+        if allow_log and len(st) == 2 and isinstance(st[0], ast.Expr) and isinstance(st[0].value, ast.Call) \
+                and isinstance(st[0].value.func, ast.Attribute) and isinstance(st[0].value.func.value, ast.Name) \
+                and st[0].value.func.value.id == "log":
+            st = st[1:]
+        if not (len(st) == 1 and isinstance(st[0], ast.Assign) and len(st[0].targets) == 1
+                and isinstance(st[0].targets[0], ast.Name) and st[0].targets[0].id == "label"):
+            raise P.Untranslatable("_format_page_label: branch is not `label = <expr>`")
+        return st[0].value
+
+    def numeral(e):
+        """-> (formatter, upper)"""
+        up = False
+        if isinstance(e, ast.Call) and isinstance(e.func, ast.Attribute) and e.func.attr == "upper" and not e.args:
+            up, e = True, e.func.value
+        if isinstance(e, ast.Call) and isinstance(e.func, ast.Name) and len(e.args) == 1 \
+                and isinstance(e.args[0], ast.Name) and e.args[0].id == "value" and not e.keywords:
+            f = {"str": "str", "format_int_roman": "roman", "format_int_alpha": "alpha"}.get(e.func.id)
+            if f:
+                return f, up
+        raise P.Untranslatable("_format_page_label: numeral expression outside the subset")
+
+    def const_text(e):
+        if isinstance(e, ast.Constant) and isinstance(e.value, str):
+            return lean_text(e.value)
+        raise P.Untranslatable("_format_page_label: label of the None / else branch is not a string literal")
+
+    node, chain, none_label = body[0], [], None
+    while True:
+        t = node.test
+        if not (isinstance(t, ast.Compare) and len(t.ops) == 1 and isinstance(t.ops[0], ast.Is)
+                and isinstance(t.left, ast.Name) and t.left.id == "style"):
+            raise P.Untranslatable("_format_page_label: test is not `style is ...`")
+        c = t.comparators[0]
+        if isinstance(c, ast.Constant) and c.value is None:
+            if chain or none_label is not None:
+                raise P.Untranslatable("_format_page_label: `style is None` is not the first test")
+            none_label = const_text(label_expr(node.body, False))
+        elif isinstance(c, ast.Call) and isinstance(c.func, ast.Name) and c.func.id == "LIT" and len(c.args) == 1 \
+                and isinstance(c.args[0], ast.Constant) and isinstance(c.args[0].value, str):
+            f, up = numeral(label_expr(node.body, False))
+            chain.append((c.args[0].value.encode("latin-1"), f, up))
+        else:
+            raise P.Untranslatable("_format_page_label: test is not `style is None` / `style is LIT(\"x\")`")
+        if len(node.orelse) == 1 and isinstance(node.orelse[0], ast.If):
+            node = node.orelse[0]
+            continue
+        else_label = const_text(label_expr(node.orelse, True))
+        break
+    if none_label is None:
+        raise P.Untranslatable("_format_page_label: no `style is None` branch")
+    rows = ", ".join("([%s], PyNumeral.%s, %s)" % (", ".join(str(b) for b in k), f, "true" if up else "false")
+                     for k, f, up in chain)
+    return ("/-- `PageLabels._format_page_label`: the if/elif chain `style is LIT(name)` in source order:\n"
+            "(name, numeral function applied to `value`, followed by `.upper()`) -/\n"
+            f"def format_page_label_chain : List (List UInt8 × PyNumeral × Bool) := [{rows}]\n\n"
+            f"/-- label of the `style is None` branch -/\ndef format_page_label_none : CodePoints := {none_label}\n\n"
+            f"/-- label of the final `else` branch (unknown style, a warning is logged) -/\n"
+            f"def format_page_label_else : CodePoints := {else_label}\n\n")
+
+
+def labels_constants(doc_mod):
+    fn = P.find_function(doc_mod, "PageLabels.labels")
+    defaults = {}
+    for n in ast.walk(fn):
+        if isinstance(n, ast.Call) and isinstance(n.func, ast.Attribute) and n.func.attr == "get" \
+                and isinstance(n.func.value, ast.Name) and n.func.value.id == "label_dict" and n.args \
+                and isinstance(n.args[0], ast.Constant) and isinstance(n.args[0].value, str):
+            key = n.args[0].value
+            d = P.literal(n.args[1]) if len(n.args) > 1 else None
+            if key in defaults and defaults[key] != d:
+                raise P.Untranslatable(f"labels: two defaults for {key}")
+            defaults[key] = d
+    if set(defaults) != {"S", "P", "St"}:
+        raise P.Untranslatable(f"labels: label dictionary keys read are {sorted(defaults)}, expected S, P, St")
+    if defaults["S"] is not None or not isinstance(defaults["P"], bytes) \
+            or not (isinstance(defaults["St"], int) and not isinstance(defaults["St"], bool)):
+        raise P.Untranslatable("labels: defaults of S / P / St outside the subset")
+    exprs = {}
+    for n in ast.walk(fn):
+        if isinstance(n, ast.Assign) and len(n.targets) == 1 and isinstance(n.targets[0], ast.Name) \
+                and n.targets[0].id in ("range_length", "values"):
+            exprs.setdefault(n.targets[0].id, []).append(n.value)
+        if isinstance(n, ast.AnnAssign) and isinstance(n.target, ast.Name) and n.value is not None \
+                and n.target.id in ("range_length", "values"):
+            exprs.setdefault(n.target.id, []).append(n.value)
+    ren = {"end": "end_", "start": "start", "first_value": "first_value", "range_length": "range_length"}
+
+    def iexpr(e):
+        if isinstance(e, ast.Name) and e.id in ren:
+            return ren[e.id]
+        if isinstance(e, ast.Constant) and isinstance(e.value, int) and not isinstance(e.value, bool):
+            return str(e.value)
+        if isinstance(e, ast.BinOp) and type(e.op) in (ast.Add, ast.Sub):
+            return f"({iexpr(e.left)} {'+' if isinstance(e.op, ast.Add) else '-'} {iexpr(e.right)})"
+        raise P.Untranslatable("labels: integer expression outside the subset")
+    if len(exprs.get("range_length", [])) != 1:
+        raise P.Untranslatable("labels: range_length is not assigned exactly once")
+    rl = iexpr(exprs["range_length"][0])
+    rng = [v for v in exprs.get("values", []) if isinstance(v, ast.Call) and isinstance(v.func, ast.Name)
+           and v.func.id == "range" and len(v.args) == 2]
+    cnt = [v for v in exprs.get("values", []) if isinstance(v, ast.Call) and isinstance(v.func, ast.Attribute)
+           and v.func.attr == "count" and len(v.args) == 1 and isinstance(v.args[0], ast.Name)
+           and v.args[0].id == "first_value"]
+    if len(rng) != 1 or len(cnt) != 1 or len(exprs["values"]) != 2:
+        raise P.Untranslatable("labels: values is not itertools.count(first_value) / range(a, b)")
+    return ("/-- `label_dict.get(\"St\", <default>)` in `PageLabels.labels` -/\n"
+            f"def labels_default_St : Int := {defaults['St']}\n\n"
+            "/-- `label_dict.get(\"P\", <default>)` -/\n"
+            f"def labels_default_P : List UInt8 := {P.lean_bytes(defaults['P'])}\n\n"
+            "/-- `range_length = ...` -/\n"
+            f"def labels_range_length (start end_ : Int) : Int := {rl}\n\n"
+            "/-- `values = range(...)` of a range that is not the last one -/\n"
+            f"def labels_values (first_value range_length : Int) : List Int := "
+            f"pyRange {iexpr(rng[0].args[0])} {iexpr(rng[0].args[1])}\n\n")
+
+
 def generate_code(lean_dir: str, mod):
     import string
     out = [P.HEADER.format(src="pdfminer/utils.py", ns="LabelCode")
@@ -255,6 +385,10 @@ def generate_code(lean_dir: str, mod):
                "def ascii_lowercase : CodePoints := " + lean_text(string.ascii_lowercase) + "\n\n")
     out.append(numeral_function(mod, "format_int_roman", ["value", "index", "result"], ["thousands"]))
     out.append(numeral_function(mod, "format_int_alpha", ["value", "result"], []))
+    doc_mod = P.parse_file("pdfminer/pdfdocument.py")
+    out.append("/-! ### pdfminer/pdfdocument.py, class PageLabels -/\n\n")
+    out.append(page_label_chain(doc_mod))
+    out.append(labels_constants(doc_mod))
     out.append("end PdfVerif.Gen.LabelCode\n")
     path = os.path.join(lean_dir, "PdfVerif", "Gen", "LabelCode.lean")
     P.write_if_changed(path, "".join(out))
